@@ -13,7 +13,9 @@ None, arithmetic overflow in debug builds, explicit assert).
   W  push word matching (`char_at` / `find_prev_char` with slicing at computed offsets) on every UTF-8 value / literal
      pattern up to the bound, multi-byte characters included.
   K  the ring-compatibility rewrite of PKCS#8 documents (Ed25519KeyPair::from_der): Kani over the compiled code, every
-     byte string <= 8 bytes (through the cfg(ruma_verif) hook).
+     byte string <= 8 bytes (through the cfg(ruma_verif) hook), and
+  D  the same rewrite from MIR on every byte string <= 300 bytes (Vec<u8> modelled as a byte string), which puts the wrap-around
+     of the one-byte DER length (`doc.len() as u8 - 2`) inside the bound.
   Ruleset edits (`move_index` past the end etc.) are decided by C13 and cited.
 Outside the claim: serde_json / serde-derive driven entry points (events, Raw), html5ever, http_auth's challenge parser
 (XMatrix), url::Url - third-party code that neither engine can encode; stack depth and termination of the recursive HTML
@@ -135,19 +137,75 @@ def run_word_utf8(C, job):
         C.samples.append({'word_utf8_witness': [repr(model_bytes(m, val)), repr(model_bytes(m, pat))], 'native': res.get('v')})
 
 
+# ------------------------------------------------------------------------------------------------ D ring-compat rewrite, long documents
+def run_ring_compat(C, job):
+    """CompatibleDocument::from_bytes / fix_ring_doc on every byte string up to N bytes (N > 257: the one-byte DER length and its
+    `as u8` arithmetic wrap there); Vec<u8> is modelled as a byte string (harness-level models of the six Vec operations used)"""
+    N = job
+    E = C.fresh_engine(['idval', 'common', 'signatures'], N=N)
+    E.feas_mode = 'budget'; E.feas_timeout_ms = 2000
+    from mirsym.models.str_models import find_pred, match_at, sub, concat, slice_str
+    OV = E.overrides
+    S_ = lambda st, v: E.as_str(st, v)
+    OV.insert(0, (re.compile(r'^std::slice::<impl \[u8\]>::to_vec$|^<std::vec::Vec as std::ops::Deref>::deref$'), lambda E_, st, c, a, m: [(TRUE, S_(st, a[0]))]))
+    OV.insert(0, (re.compile(r'^<\[u8\] as subslice::SubsliceExt>::find$'),
+                  lambda E_, st, c, a, m: find_pred(E_, S_(st, a[0]), lambda i: match_at(E_, S_(st, a[0]), i, S_(st, a[1])))))
+
+    def index(E_, st, callee, a, m):
+        s_ = S_(st, a[0]); i = E_.deref(st, a[1])
+        if isinstance(i, I):
+            okc = z3.ULT(i.v, s_.ln)
+            return [(okc, E_.alloc(st, I(s_.at(i.v), 8))), (z3.Not(okc), Panic('index out of bounds'))]
+        lo = E_.deref(st, i.fields[0]).v           # RangeFrom
+        return slice_str(E_, s_, lo, s_.ln, check_boundary=False)
+    OV.insert(0, (re.compile(r'^<std::vec::Vec as std::ops::Index(?:Mut)?>::index(?:_mut)?$'), index))
+
+    def split_off(E_, st, callee, a, m):
+        s_ = S_(st, a[0]); at = E_.deref(st, a[1]).v
+        okc = z3.ULE(at, s_.ln)
+        def eff(st2): E_.store(st2, a[0], sub(s_, bv(0), at))
+        return [(okc, sub(s_, at, s_.ln - at), eff), (z3.Not(okc), Panic('`at` split index out of bounds'))]
+    OV.insert(0, (re.compile(r'^std::vec::Vec::split_off$'), split_off))
+
+    def extend(E_, st, callee, a, m):
+        s_ = S_(st, a[0]); o_ = S_(st, a[1])
+        def eff(st2): E_.store(st2, a[0], concat(E_, [s_, o_], is_str=False))
+        return [(TRUE, UNIT, eff)]
+    OV.insert(0, (re.compile(r'^<std::vec::Vec as std::iter::Extend>::extend$'), extend))
+    b, cons = E.sym_str('doc', N, utf8=False)
+    b = Str(b.base, b.off, b.ln, False, b.cap, b.cbytes, b.abs_cap, b.elems)
+    f = E.find_method('CompatibleDocument', 'from_bytes')
+    outs = E.run_func(f, [b], cons)
+    C.absorb(E)
+    n = panic_queries(C, E, f'Ed25519KeyPair::from_der ring-compat rewrite, documents <= {N} bytes', outs, cons,
+                      lambda m: f'{len(model_bytes(m, b))}-byte document {model_bytes(m, b)[:8].hex()}..', lambda m: {'op': 'c17:ring_compat', 's_hex': model_bytes(m, b).hex()})
+    C.bounds[f'ring_compat:{N}'] = {'max_len_bytes': N, 'paths': len(outs), 'panic_paths': n}
+    for k, sel in (('rewritten', lambda o: o.kind == 'ret' and o.value.variant == 'CleanedFromRing'), ('passed through', lambda o: o.kind == 'ret' and o.value.variant == 'WellFormed')):
+        cs = [o.cond() for o in outs if sel(o)]
+        r, m = C.solve(f'ring-compat witness ({k})', cons + list(E.axioms) + [z3.Or(*cs) if cs else z3.BoolVal(False)] + ([z3.UGT(b.ln, 100)] if k == 'rewritten' else []))
+        if r != 'sat':
+            raise Broken(f'ring-compat: no {k} path (vacuous harness)')
+        res = C.native({'op': 'c17:ring_compat', 's_hex': model_bytes(m, b).hex()})
+        C.model_validation += 1
+        if res.get('r') != 'ok' or (res.get('rewritten_len') is not None) != (k == 'rewritten'):
+            raise Broken(f'ring-compat witness {k} behaves differently natively: {res}')
+        C.samples.append({'ring_compat_witness': k, 'len': len(model_bytes(m, b)), 'native': res})
+
+
 def body(C):
-    C.engine(['idval', 'common'], N=8)
-    C.build_replayer(['common'])
+    C.engine(['idval', 'common', 'signatures'], N=8)
+    C.build_replayer(['signatures'])
     quick = C.tier == 'quick'
     jobs = [(c10.run_target, 'mxc_uri'), (c10.run_target, 'key_id_any'),
             (c11.run_nopanic, ('MatrixId::parse_with_sigil', 'c11:parse_sigil')),
             (run_content_disposition, 4 if quick else 5),
-            (run_word_utf8, (6, 4) if quick else (7, 4))]
+            (run_word_utf8, (6, 4) if quick else (7, 4)),
+            (run_ring_compat, 300)]
     parts = os.environ.get('VERIF_PARTS')
     if parts:
         jobs = [j for j in jobs if any(p in j[0].__name__ or p in repr(j[1]) for p in parts.split(','))]
     C.assumptions += [
-        'decided entry points: identifier validators mxc_uri / key_id (<= 300 bytes), MatrixId::parse_with_sigil (bound in coverage.bounds), ContentDisposition::try_from(&[u8]), push word matching on UTF-8 text, the ring-compat rewrite in Ed25519KeyPair::from_der (Kani, <= 8 bytes); ruleset edits are decided by C13',
+        'decided entry points: identifier validators mxc_uri / key_id (<= 300 bytes), MatrixId::parse_with_sigil (bound in coverage.bounds), ContentDisposition::try_from(&[u8]), push word matching on UTF-8 text, the ring-compat rewrite in Ed25519KeyPair::from_der (MIR <= 300 bytes; Kani <= 8 bytes); ruleset edits are decided by C13',
         'library calls below the seam: String::from_utf8_lossy, percent decoding and charset checks in RawParam::decode_value (arbitrary Option<String>), percent_encoding, server-name validation summary (C10 level A)',
         'outside the claim: serde_json / serde-derive driven deserialization (events, Raw<T>, endpoint bodies), html5ever (HTML), http_auth challenge parser (XMatrix), url::Url; nesting depth, stack exhaustion, termination and "a rejected input has no effect on later calls" (the decided functions are pure: they take the input by reference and own no state)',
     ]
